@@ -16,7 +16,12 @@ Request:
      | {"vcs":[D..],"outs":[{"d":data,"c":D} | {"e":<exception>} ..],"wf":[bool..],"namesok":bool}
        `vcs` the var_contexts of the constructed variables, `outs[i]` = the variables applied one after the
        other (`seqCall`) to `vals[i]`, `wf[i]` = `chainWFb` (the hypothesis `ChainWF` of `compose_eq_sequence`)
-       for `vals[i]`, `namesok` = `namesOKb` (hypothesis `NamesOK`). -/
+       for `vals[i]`, `namesok` = `namesOKb` (hypothesis `NamesOK`).
+  {"op":"attr","names":[..],"fx":bool,"nk":bool,"expr":E,"ops":[O..]}   attribute access on one variable, in order:
+    O = {"get":s} -> {"r":V}|{"e":..}   {"set":s,"v":V} -> {"r":null}   {"item":i} -> {"r":k,"vc":D}|{"e":..}
+      | {"call":value} -> {"d":..,"c":D}|{"e":..}   {"vc":true} -> {"vc":D}
+    -> {"r":[..]} | {"e":..,"phase":"init"}
+`nk` (optional, default false): `Compose` honours its `name` keyword (notes/C14_defect_2.patch). -/
 open Lean Lena.Drv Lena.C14
 
 inductive Data where
@@ -65,6 +70,8 @@ def errName : Err → String
   | .typeError => "Other:TypeError"
   | .assertionError => "Other:AssertionError"
   | .unmodelled => "unmodelled"
+  | .attributeError => "Other:AttributeError"
+  | .indexError => "Other:IndexError"
 
 def toGetter (j : Json) : Option (GetterArg Data) :=
   match j with
@@ -103,7 +110,8 @@ def handle (j : Json) : Json :=
           (arr? (getD j "exprs")).bind (fun a => a.toList.mapM toExpr),
           (arr? (getD j "vals")).bind (fun a => a.toList.mapM toValue) with
     | some names, some fx, some exprs, some vals =>
-      match evalArgs names fx Data.tuple exprs with
+      let nk := (bool? (getD j "nk")).getD false
+      match evalArgs names fx nk Data.tuple exprs with
       | .error e => Json.mkObj [("e", errName e), ("phase", "init")]
       | .ok as =>
         -- an object that is not a Variable cannot be applied: the harness never sends one at top level
@@ -119,6 +127,54 @@ def handle (j : Json) : Json :=
           Json.mkObj [("vcs", ofList (fun v => ofD v.varCtx) vars), ("outs", Json.arr outs.toArray),
                       ("wf", Json.arr wf.toArray), ("namesok", Json.bool (namesOKb names))]
     | _, _, _, _ => err "bad run args"
+  | some "attr" =>
+    match (arr? (getD j "names")).bind (fun a => a.toList.mapM str?), bool? (getD j "fx"),
+          toExpr (getD j "expr"), arr? (getD j "ops") with
+    | some names, some fx, some e, some ops =>
+      let nk := (bool? (getD j "nk")).getD false
+      match evalExpr names fx nk Data.tuple e with
+      | .error er => Json.mkObj [("e", errName er), ("phase", "init")]
+      | .ok none => err "attr: expression is not a Variable"
+      | .ok (some v0) =>
+        -- the variables a top-level Combine was given (`_vars`), for `__getitem__`
+        let subs : Option (List (Variable Data)) :=
+          match e with
+          | .combine args _ =>
+            match evalArgs names fx nk Data.tuple args with
+            | .ok as => some (as.filterMap id)
+            | .error _ => none
+          | _ => none
+        let step (st : Variable Data × List Json) (o : Json) : Variable Data × List Json :=
+          let (v, out) := st
+          match str? (getD o "get"), str? (getD o "set"), int? (getD o "item") with
+          | some a, _, _ =>
+            (v, out ++ [match getAttr names v a with
+              | .ok x => Json.mkObj [("r", ofV x)]
+              | .error er => Json.mkObj [("e", errName er)]])
+          | _, some a, _ =>
+            match toV (getD o "v") with
+            | some x => (setAttr names v a x, out ++ [Json.mkObj [("r", Json.null)]])
+            | none => (v, out ++ [err "bad set value"])
+          | _, _, some i =>
+            (v, out ++ [match subs with
+              | none => Json.mkObj [("e", "Other:TypeError")]     -- not subscriptable
+              | some vs =>
+                match pyIndex vs.length i, combineGetItem vs i with
+                | .ok k, .ok w => Json.mkObj [("r", ofNat k), ("vc", ofD w.varCtx)]
+                | _, .error er => Json.mkObj [("e", errName er)]
+                | .error er, _ => Json.mkObj [("e", errName er)]])
+          | _, _, _ =>
+            if !(getD o "call").isNull then
+              match toValue (getD o "call") with
+              | some x =>
+                (v, out ++ [match call names fx v x with
+                  | .ok (d, c) => Json.mkObj [("d", ofData d), ("c", ofD c)]
+                  | .error er => Json.mkObj [("e", errName er)]])
+              | none => (v, out ++ [err "bad call value"])
+            else (v, out ++ [Json.mkObj [("vc", ofD v.varCtx)]])
+        let (_, out) := ops.toList.foldl step (v0, [])
+        Json.mkObj [("r", Json.arr out.toArray)]
+    | _, _, _, _ => err "bad attr args"
   | _ => err "unknown op"
 
 def main : IO Unit := run handle
